@@ -408,7 +408,28 @@ func (w *world) deleteUsed(tp *sim.Tape) {
 	case len(ready) > 0:
 		w.S.Probe("delete-of-protected-resource")
 		if err == nil || gone {
-			w.S.Violate("C19/in-use-resource-deleted", fmt.Sprintf("DELETE Widget db (%s) succeeded although ready Usage(s) %v protect it", ver, ready))
+			sig := "C19/in-use-resource-deleted"
+			// was the resource unprotected because the deletion reconcile of another
+			// Usage took the in-use marker away while a ready Usage existed? (the
+			// admission webhook is only called for marked resources)
+			for i := len(w.Store.Log) - 1; i >= 0 && i > len(w.Store.Log)-600; i-- {
+				l := w.Store.Log[i]
+				if l.Read || l.Key.Kind != "Widget" || l.Key.Name != "db" || l.Before == nil || l.After == nil || l.Err != nil {
+					continue
+				}
+				had := (&unstructured.Unstructured{Object: l.Before}).GetLabels()[inUse] == "true"
+				has := (&unstructured.Unstructured{Object: l.After}).GetLabels()[inUse] == "true"
+				if had && !has {
+					if l.Actor == "usage-controller" {
+						sig += "/marker-removed-by-concurrent-usage-deletion"
+					}
+					break
+				}
+				if has {
+					break
+				}
+			}
+			w.S.Violate(sig, fmt.Sprintf("DELETE Widget db (%s) succeeded although ready Usage(s) %v protect it", ver, ready))
 			return
 		}
 		ann := (&unstructured.Unstructured{Object: after}).GetAnnotations()["usage.crossplane.io/deletion-attempt-with-policy"]
